@@ -243,6 +243,9 @@ REG.add(Contract(
         P(['C13', 'C02'], 'text-leaf-is-the-token', 'kind(result) == K("TexText") ==> etok(result) == src.Q[old(src.i)]'),
         P(['C08', 'C01'], 'exact-when-tight', 'tolerance == 0 and cleansrc(src) and tight(result) ==> ser(result) == ' + _RE_SPAN),
         P(['C08'], 'conserves-non-blank', 'tolerance == 0 and cleansrc(src) and clean(result) ==> NW(ser(result)) == NW(%s)' % _RE_SPAN),
+        P(['C11'], 'skipped-environment-body-is-one-raw-text',
+          'kind(result) == K("TexNamedEnv") and mode != "mode:special" and ename(result) in skip_envs ==> '
+          'len(body(result)) <= 1'),
         G('not-bare', 'not isbare(result)')]))
 
 
